@@ -122,30 +122,34 @@ std::string show_units(Kind kind, int64_t u) {
 }
 
 struct ReaderCfg { int n; bool delta[3]; };
-std::vector<ReaderCfg> g_readers;
-int g_depth = 5;
+// A run is split into parts with different bounds: (depth, alphabet, reader configurations).
+//   small alphabet: attribute sets {} and {a=1}, one value (up-down: +1 and -1)
+//   reps: one reader configuration per multiset of temporalities (readers are interchangeable up to
+//         their position in the collector list); otherwise all 14 ordered configurations
+struct Part { int depth; bool small; bool reps; };
+std::vector<Part> g_parts;
+std::vector<ReaderCfg> g_readers_all, g_readers_rep;
 int g_max_handles = 2;
+const int kNValSmall[3] = {1, 1, 2};
+const int kSmallVal[3][2] = {{0, 0}, {0, 0}, {0, 2}};  // indices into kUnits
 
 void setup(vf::Options &o) {
-  o.split_depth = 4;
+  o.split_depth = 5;
   o.deadline_s = o.thorough ? 900 : 150;
-  o.table_bits = o.thorough ? 25 : 23;
+  o.table_bits = o.thorough ? 26 : 23;
   opentelemetry::sdk::common::internal_log::GlobalLogHandler::SetLogLevel(opentelemetry::sdk::common::internal_log::LogLevel::None);
   const bool D = true, C = false;
-  if (o.thorough) {
-    for (int n = 1; n <= 3; ++n)
-      for (int m = 0; m < (1 << n); ++m) {
-        ReaderCfg rc{n, {false, false, false}};
-        for (int i = 0; i < n; ++i) rc.delta[i] = !((m >> i) & 1);
-        g_readers.push_back(rc);
-      }
-  } else {
-    // one representative per multiset of temporalities (readers are interchangeable up to their position in the collector list)
-    g_readers = {{1, {D}}, {1, {C}}, {2, {D, D}}, {2, {D, C}}, {2, {C, C}}, {3, {D, D, C}}, {3, {D, C, C}}, {3, {C, D, D}}};
-  }
-  g_depth = o.thorough ? 7 : 5;
+  for (int n = 1; n <= 3; ++n)
+    for (int m = 0; m < (1 << n); ++m) {
+      ReaderCfg rc{n, {false, false, false}};
+      for (int i = 0; i < n; ++i) rc.delta[i] = !((m >> i) & 1);
+      g_readers_all.push_back(rc);
+    }
+  g_readers_rep = {{1, {D}}, {1, {C}}, {2, {D, D}}, {2, {D, C}}, {2, {C, C}}, {3, {D, D, C}}, {3, {D, C, C}}, {3, {C, D, D}}};
+  if (o.thorough) g_parts = {{5, false, false}, {6, false, true}, {7, true, true}};
+  else g_parts = {{5, false, true}};
   std::string d = o.get("depth");
-  if (!d.empty()) g_depth = atoi(d.c_str());
+  if (!d.empty()) g_parts = {{atoi(d.c_str()), o.get("small") == "1", o.get("allreaders") != "1"}};
 }
 
 struct ReaderStream {
@@ -203,10 +207,16 @@ void hash_map(vf::H128 &h, Kind kind, const sdkm::AttributesHashMap *m) {
 void run(vf::Ctx &c) {
   vf::clock_reset();
   vf::clock_set_autostep_ns(1000);
+  const int part = c.pick("part", (int)g_parts.size());
+  const Part &P = g_parts[part];
+  const int g_depth = P.depth;
   const Kind kind = (Kind)c.pick("kind", 3);
   const int nviews = c.pick("views", 3);
+  const std::vector<ReaderCfg> &g_readers = P.reps ? g_readers_rep : g_readers_all;
   const int rcfg = c.pick("readers", (int)g_readers.size());
   const ReaderCfg &RC = g_readers[rcfg];
+  const int n_attr = P.small ? 2 : NATTR;
+  const int n_val = P.small ? kNValSmall[kind] : kNVal[kind];
   const int R = RC.n;
   const int S = nviews == 2 ? 2 : 1;
 
@@ -243,7 +253,7 @@ void run(vf::Ctx &c) {
   };
   create();
 
-  std::string cfgs = vf::sfmt("%s views=%d readers=", kKindName[kind], nviews);
+  std::string cfgs = vf::sfmt("%s%s views=%d readers=", P.small ? "small-alphabet " : "", kKindName[kind], nviews);
   for (int r = 0; r < R; ++r) cfgs += RC.delta[r] ? 'D' : 'C';
   std::string hist;
   std::string outlog;
@@ -264,7 +274,7 @@ void run(vf::Ctx &c) {
 
   auto real_state = [&](vf::H128 &h) {
     h.add(0xc06);
-    h.add((uint64_t)kind); h.add((uint64_t)nviews); h.add((uint64_t)rcfg); h.add((uint64_t)handles.size());
+    h.add((uint64_t)part); h.add((uint64_t)kind); h.add((uint64_t)nviews); h.add((uint64_t)rcfg); h.add((uint64_t)handles.size());
     h.add((uint64_t)(ts_ns(provider.context_->sdk_start_ts_) - vf::clock_system_base_ns()));
     std::vector<sdkm::SyncMetricStorage *> st = storages();
     for (auto *s : st) {
@@ -319,7 +329,7 @@ void run(vf::Ctx &c) {
   for (int d = 0; d < g_depth; ++d) {
     const bool last = d == g_depth - 1;
     const int nh = (int)handles.size();
-    const int n_add = last ? 0 : nh * NATTR * kNVal[kind];
+    const int n_add = last ? 0 : nh * n_attr * n_val;
     const int n_create = (!last && nh < g_max_handles) ? 1 : 0;
     {
       // Sound pruning: the hash covers every field of the real objects that a later Add / Create /
@@ -336,8 +346,8 @@ void run(vf::Ctx &c) {
     int op = c.pick("op", n_add + R + n_create);
     c.step();
     if (op < n_add) {
-      int hi = op / (NATTR * kNVal[kind]), rest = op % (NATTR * kNVal[kind]);
-      int attr = rest / kNVal[kind], vi = rest % kNVal[kind];
+      int hi = op / (n_attr * n_val), rest = op % (n_attr * n_val);
+      int attr = rest / n_val, vi = P.small ? kSmallVal[kind][rest % n_val] : rest % n_val;
       c.stage("Add");
       hist += vf::sfmt(" Add(h%d,%s,%s)", hi, show_units(kind, kUnits[kind][vi]).c_str(), kAttrName[attr]);
       handles[hi]->add(vi, attr);
